@@ -100,6 +100,13 @@ def run(req, seconds=20.0):
             r.exc, r.obs = e, [1, exc_code(e)]
     else:
         raise AssertionError("mode %r is model-only" % (mode,))
+    timed_out = (r.obs == [1, TIMEOUT]) or (mode == TRACE and r.status == TIMEOUT)
+    if timed_out and seconds < 100:
+        # a watchdog timeout on a busy machine is not an observation of the library: look again,
+        # with a budget six times as large, before calling it one
+        import gc
+        gc.collect()
+        return run(req, seconds=6 * seconds)
     return r
 
 
